@@ -98,10 +98,13 @@ def compare(res, n, p, mean, cov, d, tag, zero_cols=()):
     return fails
 
 
-def check_nd(p, B, mu, n, rs):
+def check_nd(p, B, mu, n, rs, check_valid="ignore"):
     S = (np.array(B, dtype=float) @ np.array(B, dtype=float).T)
-    d = "NormalDistribution(mean=%s, cov=%s).sample(%d, random_state=%r)" % (mu, S.tolist(), n, rs)
-    dist = sempler.NormalDistribution(np.array(mu, dtype=float), S)
+    d = "NormalDistribution(mean=%s, cov=%s%s).sample(%d, random_state=%r)" % (mu, S.tolist(), "" if check_valid == "ignore" else ", check_valid=%r" % check_valid, n, rs)
+    try:
+        dist = sempler.NormalDistribution(np.array(mu, dtype=float), S, check_valid=check_valid)
+    except Exception as e:
+        return [("nd:constructor-raises", "%s raised %r for a positive-definite covariance" % (d, e))], 0, True
     try:
         res = law_of(lambda: dist.sample(n, random_state=rs), n, p)
     except tape.TapeError:
@@ -205,6 +208,11 @@ def run_unit(unit):
                         absorb(acc, "nd", {"p": p, "B": B, "mu": mu, "n": n, "rs": rs}, f, ne, dec, n > 0 and any(B[i][j] for i in range(p) for j in range(i)))
                         acc.extra["nd_configs"] += 1
                         acc.outcome(["nd", B, n])
+                        if n == 2 and rs == 0 and all(B[i][i] for i in range(p)):        # positive definite: the validating constructors too
+                            for cv in ("raise", "warn"):
+                                f, ne, dec = check_nd(p, B, mu, n, rs, cv)
+                                absorb(acc, "nd", {"p": p, "B": B, "mu": mu, "n": n, "rs": rs, "cv": cv}, f, ne, dec, True)
+                                acc.extra["nd_configs_check_valid"] += 1
             if len(acc.samples) < 1 and p == 3 and B[2][2] == 0 and B[1][0]:
                 acc.sample({"sampler": "NormalDistribution.sample", "B (cov = B B^T, singular)": B, "n": [0, 1, 2, 3]})
     elif st == "lganm":
@@ -283,7 +291,7 @@ def replay(kind, case):
         from mc.checks import _g
         return check_anm(_g.WIDE_P, None, case["lab"], tuple(case["assign"]), "callable", 1, None, ch=_g.wide_targeted()[case["k"]])[0]
     if kind == "nd":
-        return check_nd(case["p"], case["B"], case["mu"], case["n"], case["rs"])[0]
+        return check_nd(case["p"], case["B"], case["mu"], case["n"], case["rs"], case.get("cv", "ignore"))[0]
     if kind == "lganm":
         return check_lganm(case["p"], case["code"], case["lab"], case["cfg"], tuple(case["assign"]), case["style"], case["n"], case["rs"])[0]
     return check_anm(case["p"], case["code"], case["lab"], tuple(case["assign"]), case["style"], case["n"], case["rs"])[0]
